@@ -530,7 +530,10 @@ func (p *Path) Prepend(parts ...interface{}) error {
 		}
 	}
 
-	p.parts = append(parts, p.parts...)
+	// never write into, or keep, the caller's slice
+	merged := make([]interface{}, 0, len(parts)+len(p.parts))
+	merged = append(merged, parts...)
+	p.parts = append(merged, p.parts...)
 	return nil
 }
 
